@@ -18,6 +18,10 @@ use digest::Digest;
 use rug::{integer::Order, ops::Pow, Complete, Integer};
 use serde::{Deserialize, Serialize};
 
+#[cfg(feature = "verif_hooks")]
+#[path = "range_proof_hooks.rs"]
+mod verif_hooks;
+
 #[derive(Clone, PartialEq, Eq, Debug, Serialize, Deserialize)]
 pub enum RangeProof {
     Boudot2000,
